@@ -6,6 +6,7 @@ import (
 	"fmt"
 	"net"
 	"os"
+	"strings"
 	"sync"
 	"testing"
 	"time"
@@ -482,4 +483,87 @@ func TestBounds(t *testing.T) {
 	}
 	wg.Wait()
 	run.Sample(map[string]any{"kind": "frame families (each executed at every truncation, both placements)", "count": len(families(run.Rand("x"))), "examples": []string{"dhcp-vlan2-type1-pre6", "dhcp-vlan0-opt82-cid33", "dhcp-vlan1-ihl15", "up-tcp-syn", "hairpin-udp"}})
+}
+
+// TestUnboundIsOtherTraffic: a subscriber that was unbound through the control plane is "other traffic"
+// again: for every frame the verdict for its MAC must equal the verdict for a MAC the program has never
+// heard of (differential oracle, no decision table), in every default mode and for every binding shape.
+func TestUnboundIsOtherTraffic(t *testing.T) {
+	k, err := cplane.LoadKernel("antispoof")
+	if err != nil {
+		return // reported by TestBounds
+	}
+	defer k.Close()
+	n, err := cplane.Start("antispoof", os.Getenv("VERIF_BUILD")+"/C07.unbound.journal")
+	if err != nil {
+		t.Fatal(err)
+	}
+	defer n.Close()
+	rng := run.Rand("unbound")
+	modes := []antispoof.Mode{antispoof.ModeDisabled, antispoof.ModeStrict, antispoof.ModeLoose, antispoof.ModeLogOnly}
+	shapes := []string{"v4", "v6", "v4+v6", "v6+v4"}
+	for _, def := range modes {
+		for _, bm := range modes {
+			for _, sh := range shapes {
+				clearKernel(k)
+				mgr, _ := antispoof.NewManager(antispoof.ManagerConfig{Interface: "lo"}, zap.NewNop())
+				mgr.VerifSetMaps(k.Coll.Maps["subscriber_bindings"], k.Coll.Maps["antispoof_config"], k.Coll.Maps["antispoof_stats"], k.Coll.Maps["allowed_ranges_v4"])
+				was := net.HardwareAddr{0x02, byte(rng.IntN(256)), byte(rng.IntN(256)), byte(rng.IntN(256)), byte(rng.IntN(256)), 0x10}
+				never := net.HardwareAddr{0x02, byte(rng.IntN(256)), byte(rng.IntN(256)), byte(rng.IntN(256)), byte(rng.IntN(256)), 0x20}
+				other := net.HardwareAddr{0x02, 1, 2, 3, 4, 0x30}
+				mgr.SetMode(bm)
+				mgr.AddBinding(other, net.IPv4(10, 20, 30, 41)) // a bystander that stays bound
+				var steps []string
+				for _, part := range strings.Split(sh, "+") {
+					if part == "v4" {
+						mgr.AddBinding(was, subIP)
+						steps = append(steps, "AddBinding(v4)")
+					} else {
+						mgr.AddBindingV6(was, net.ParseIP("2001:db8::5"))
+						steps = append(steps, "AddBindingV6")
+					}
+				}
+				mgr.RemoveBinding(was)
+				steps = append(steps, "RemoveBinding")
+				_, r, _ := net.ParseCIDR("10.20.0.0/16")
+				mgr.AddAllowedRange(r)
+				mgr.SetMode(def)
+				copyMaps(t, k, n)
+				frames := map[string]func(src net.HardwareAddr) []byte{
+					"v4-old-address": func(src net.HardwareAddr) []byte {
+						return cplane.Eth(srvMAC, src, 0x0800, nil, cplane.IPv4(subIP, farIP, 17, 5, cplane.UDP(1, 2, nil)))
+					},
+					"v4-other-address": func(src net.HardwareAddr) []byte {
+						return cplane.Eth(srvMAC, src, 0x0800, nil, cplane.IPv4(net.IPv4(10, 20, 99, 99), farIP, 17, 5, cplane.UDP(1, 2, nil)))
+					},
+					"v4-outside-range": func(src net.HardwareAddr) []byte {
+						return cplane.Eth(srvMAC, src, 0x0800, nil, cplane.IPv4(net.IPv4(172, 16, 0, 9), farIP, 17, 5, cplane.UDP(1, 2, nil)))
+					},
+					"v6-old-address": func(src net.HardwareAddr) []byte {
+						return cplane.Eth(srvMAC, src, 0x86dd, nil, cplane.IPv6(net.ParseIP("2001:db8::5"), net.ParseIP("2001:db8::1"), 17, cplane.UDP(1, 2, nil)))
+					},
+					"v6-other-address": func(src net.HardwareAddr) []byte {
+						return cplane.Eth(srvMAC, src, 0x86dd, nil, cplane.IPv6(net.ParseIP("2001:db8::77"), net.ParseIP("2001:db8::1"), 17, cplane.UDP(1, 2, nil)))
+					},
+					"arp": func(src net.HardwareAddr) []byte { return cplane.Eth(srvMAC, src, 0x0806, nil, make([]byte, 28)) },
+				}
+				for fname, mk := range frames {
+					ra, err1 := n.Run("antispoof_ingress", mk(was), cplane.RunOpt{})
+					rb, err2 := n.Run("antispoof_ingress", mk(never), cplane.RunOpt{})
+					if err1 != nil || err2 != nil {
+						run.Violation("bpf/antispoof.c:antispoof_ingress", "stays-inside-packet", "sanitizer-or-guard-fault", fmt.Sprint(err1, err2), nil)
+						return
+					}
+					run.Eval()
+					run.Count("unbound_vs_unknown_compared", 1)
+					run.Nontrivial(fmt.Sprintf("unbound|%d|%d|%s|%s", def, bm, sh, fname))
+					if ra.Verdict != rb.Verdict {
+						run.Violation("antispoof.Manager.RemoveBinding+bpf/antispoof.c", "unbound-subscriber-is-other-traffic", "stale-binding-after-remove/"+sh,
+							fmt.Sprintf("default mode %d, bound in mode %d (%v): frame %s from the unbound MAC gets verdict %d, the same frame from a MAC never bound gets %d", def, bm, steps, fname, ra.Verdict, rb.Verdict),
+							map[string]any{"steps": steps, "default_mode": def, "bound_in_mode": bm, "frame": fname})
+					}
+				}
+			}
+		}
+	}
 }
